@@ -375,7 +375,8 @@ type Unit struct {
 	// Via: the Go value that carries the unit to gorm when it is not the default one.
 	//  map:    "" map[string]interface{} | colarg Where("col", v) | mapss map[string]string |
 	//          mapii map[interface{}]interface{} | pk Where(k) | pkstr Where("k") | pkstrsign Where("+k") |
-	//          pkslice Where([]int64)
+	//          pkslice Where([]int64) | pkargs Where(k1, k2, ...) (several bare keys as separate arguments)
+	//  expr:   "" | args (a clause.And of >= 2 operands given as separate arguments: Where(x, y, ...))
 	//  struct: "" | sel (the members' columns selected by name: zero values count) | slicesel (the same
 	//          through a slice of one struct) |
 	//          slice (a slice of structs, Elems = members per element)
@@ -797,6 +798,14 @@ func (u Unit) QueryArgs(db *gorm.DB, byID map[int]Atom) (interface{}, []interfac
 			return fmt.Sprintf("%+d", byID[u.Members[0]].I), nil
 		case "pkslice":
 			return byID[u.Members[0]].IL, nil
+		case "pkargs":
+			// the keys as separate bare arguments: Where(k1, k2, ...)
+			il := byID[u.Members[0]].IL
+			rest := []interface{}{}
+			for _, k := range il[1:] {
+				rest = append(rest, k)
+			}
+			return il[0], rest
 		case "nilmap":
 			return map[string]interface{}(nil), nil
 		}
@@ -846,6 +855,14 @@ func (u Unit) QueryArgs(db *gorm.DB, byID map[int]Atom) (interface{}, []interfac
 		}
 		return StructCond(ms), nil
 	case "expr":
+		if u.Via == "args" && u.CE.Kind == "and" && len(u.CE.Kids) >= 2 {
+			// the operands of the AND as separate arguments: BuildCondition combines them with clause.And
+			rest := []interface{}{}
+			for _, k := range u.CE.Kids[1:] {
+				rest = append(rest, k.Build(byID))
+			}
+			return u.CE.Kids[0].Build(byID), rest
+		}
 		return u.CE.Build(byID), nil
 	case "group":
 		inner := db.Session(&gorm.Session{NewDB: true})
@@ -1031,7 +1048,11 @@ func (g *Gen) GenUnit(depth int, hostile bool, allowGroup bool) Unit {
 		}
 		return Unit{Form: "struct", Members: ms}
 	case "expr":
-		return Unit{Form: "expr", CE: g.GenCExpr(2)}
+		u := Unit{Form: "expr", CE: g.GenCExpr(2)}
+		if u.CE.Kind == "and" && len(u.CE.Kids) >= 2 && r.Chance(1, 3) {
+			u.Via = "args"
+		}
+		return u
 	}
 	n := r.Range(1, 3)
 	u := Unit{Form: "group"}
@@ -1075,7 +1096,7 @@ func (g *Gen) mapUnit(n int) Unit {
 		case a.Col == "id" && a.Op == "eq":
 			u.Via = lib.Pick(r, []string{"pk", "pk", "pkstr", "pkstrsign", "colarg"})
 		case a.Col == "id" && a.Op == "in":
-			u.Via = lib.Pick(r, []string{"pkslice", "pkslice", "colarg"})
+			u.Via = lib.Pick(r, []string{"pkslice", "pkargs", "pkargs", "colarg"})
 		default:
 			u.Via = lib.Pick(r, []string{"colarg", "colarg", "mapii"})
 		}
@@ -1194,6 +1215,7 @@ func Shape(cs []Call) string {
 		case "map", "struct", "empty_map", "empty_struct":
 			fmt.Fprintf(&sb, "%d%s", len(u.Members), u.Via)
 		case "expr":
+			sb.WriteString(u.Via)
 			sb.WriteString(ceShape(u.CE))
 		case "group":
 			sb.WriteString("[")
@@ -1402,6 +1424,11 @@ func DiscoverTexts(db *gorm.DB, base func() *gorm.DB, atoms []Atom) (map[int][]s
 		if a.Col == "id" && a.Op == "in" {
 			rec(a.ID, base().Where(a.IL))
 			rec(a.NegID(), base().Not(a.IL))
+			if len(a.IL) >= 2 {
+				q, args := Unit{Form: "map", Via: "pkargs", Members: []int{a.ID}}.QueryArgs(db, map[int]Atom{a.ID: a})
+				rec(a.ID, base().Where(q, args...))
+				rec(a.NegID(), base().Not(q, args...))
+			}
 		}
 	}
 	return texts, errs
@@ -1596,6 +1623,13 @@ func (g *Gen) Catalogue() []Unit {
 		{Form: "expr", CE: ce("and", at(), at())}, {Form: "expr", CE: ce("or", at(), at())},
 		{Form: "expr", CE: ce("and", at(), rawce("or"))}, {Form: "expr", CE: ce("or", rawce("and"), at())},
 		{Form: "expr", CE: ce("not", at())}, {Form: "expr", CE: ce("not", rawce("or"))},
+		// AND-combined units one of whose members is a self-contained alternative (b OR c), as one
+		// clause.And value and as separate arguments
+		{Form: "expr", CE: ce("and", at(), ce("or", at(), at()))},
+		{Form: "expr", Via: "args", CE: ce("and", at(), ce("or", at(), at()))},
+		{Form: "expr", CE: ce("and", ce("or", at(), at()), at())},
+		{Form: "expr", Via: "args", CE: ce("and", at(), ce("or", at(), at(), at()), at())},
+		{Form: "expr", Via: "args", CE: ce("and", at(), at())},
 		grp(w(g.atomUnit()), w(g.rawUnit("or", "inline", false))),
 		grp(w(g.rawUnit("or", "named", false)), w(g.atomUnit())),
 		grp(w(g.atomUnit()), o(g.atomUnit())),
@@ -1658,6 +1692,27 @@ func (g *Gen) NegationChains() [][]Call {
 		out = append(out, []Call{{Kind: "not", Unit: Unit{Form: "group", Calls: []Call{{Kind: "where", Unit: e}, {Kind: "where", Unit: o}}}}})
 		out = append(out, []Call{{Kind: "where", Unit: o}, {Kind: "not", Unit: Unit{Form: "expr", CE: &CExpr{Kind: "and", Kids: []*CExpr{{Kind: "atom", Atom: a.ID}, {Kind: "atom", Atom: b.ID}}}}}})
 	}
+	// Not over an AND-combined unit one of whose members is a self-contained alternative
+	// clause.Or(b, c): every member false, the alternative negated as a whole; the alternative in
+	// every position, the unit as one clause.And value and as separate arguments
+	for i, a := range g.Atoms {
+		b, c := lib.Pick(g.R, g.Atoms), lib.Pick(g.R, g.Atoms)
+		at := func(x Atom) *CExpr { return &CExpr{Kind: "atom", Atom: x.ID} }
+		or := &CExpr{Kind: "or", Kids: []*CExpr{at(b), at(c)}}
+		kids := []*CExpr{at(a), or}
+		switch i % 3 {
+		case 1:
+			kids = []*CExpr{or, at(a)}
+		case 2:
+			kids = []*CExpr{at(a), or, at(lib.Pick(g.R, g.Atoms))}
+		}
+		u := Unit{Form: "expr", CE: &CExpr{Kind: "and", Kids: kids}}
+		if i%2 == 1 {
+			u.Via = "args"
+		}
+		out = append(out, []Call{{Kind: "not", Unit: u}})
+		out = append(out, []Call{{Kind: "where", Unit: Unit{Form: "expr", CE: at(lib.Pick(g.R, g.Atoms))}}, {Kind: "not", Unit: u}})
+	}
 	// Not over a group of three or four members, Where/Or in every arrangement (the first member
 	// is a Where): all members structured, and once more with one raw member
 	for n := 3; n <= 4; n++ {
@@ -1681,4 +1736,275 @@ func (g *Gen) NegationChains() [][]Call {
 		}
 	}
 	return out
+}
+
+// ---- key-form stream: the primary key as a condition unit in every Go value that can carry it ----
+
+// WithKeyAtoms makes sure the atoms hold an `id = k` and an `id IN (k1, k2, k3)` atom (appended with
+// the next free ids when missing; maxID = number of rows).
+func WithKeyAtoms(r *lib.Rng, atoms []Atom, maxID int) []Atom {
+	out := append([]Atom{}, atoms...)
+	hasEq, hasIn := false, false
+	for _, a := range out {
+		if a.Col == "id" && a.Op == "eq" {
+			hasEq = true
+		}
+		if a.Col == "id" && a.Op == "in" {
+			hasIn = true
+		}
+	}
+	next := 0
+	for _, a := range out {
+		if a.ID > next {
+			next = a.ID
+		}
+	}
+	if !hasEq {
+		for {
+			k := int64(r.Range(1, maxID))
+			clash := false
+			for _, a := range out {
+				// (`id IN (1,5)` must not start with the text of `id = 1`... they differ in the operator: no clash)
+				if a.Col == "id" && a.Op == "eq" && a.I == k {
+					clash = true
+				}
+			}
+			if !clash {
+				next++
+				out = append(out, Atom{ID: next, Col: "id", Op: "eq", I: k})
+				break
+			}
+		}
+	}
+	if !hasIn {
+		next++
+		n := r.Range(2, 4)
+		il := []int64{}
+		for len(il) < n {
+			k := int64(r.Range(1, maxID))
+			dup := false
+			for _, x := range il {
+				if x == k {
+					dup = true
+				}
+			}
+			if !dup {
+				il = append(il, k)
+			}
+		}
+		out = append(out, Atom{ID: next, Col: "id", Op: "in", IL: il})
+	}
+	return out
+}
+
+// KeyFormChains: the key unit in every form (bare key as int / numeric string / signed string,
+// slice of keys, several bare keys as separate arguments, column + value, map) under every call
+// kind: alone, after a Where, before a Where / Or, and as the inline condition of the finisher.
+func (g *Gen) KeyFormChains() [][]Call {
+	var out [][]Call
+	var eq, in *Atom
+	for i := range g.Atoms {
+		a := g.Atoms[i]
+		if a.Col == "id" && a.Op == "eq" && eq == nil {
+			eq = &g.Atoms[i]
+		}
+		if a.Col == "id" && a.Op == "in" && in == nil {
+			in = &g.Atoms[i]
+		}
+	}
+	var units []Unit
+	if eq != nil {
+		for _, via := range []string{"pk", "pkstr", "pkstrsign", "colarg", "", "mapii"} {
+			units = append(units, Unit{Form: "map", Via: via, Members: []int{eq.ID}})
+		}
+	}
+	if in != nil {
+		for _, via := range []string{"pkslice", "pkargs", "colarg", ""} {
+			units = append(units, Unit{Form: "map", Via: via, Members: []int{in.ID}})
+		}
+	}
+	other := func() Unit {
+		for {
+			u := g.atomUnit()
+			id := 0
+			if u.Form == "map" {
+				id = u.Members[0]
+			} else {
+				id = u.CE.Atom
+			}
+			if g.ByID[id].Col != "id" {
+				return u
+			}
+		}
+	}
+	for _, u := range units {
+		for _, k := range []string{"where", "not", "or"} {
+			c := Call{Kind: k, Unit: u}
+			pre := Call{Kind: "where", Unit: other()}
+			post := Call{Kind: lib.Pick(g.R, []string{"where", "or"}), Unit: other()}
+			if k != "or" {
+				out = append(out, []Call{c}, []Call{c, post})
+			}
+			out = append(out, []Call{pre, c})
+			if k == "where" {
+				ci := c
+				ci.Inline = true
+				out = append(out, []Call{ci}, []Call{pre, ci})
+			}
+		}
+	}
+	return out
+}
+
+// ZeroValueAtoms: equality atoms whose value is the zero value of its Go type (a struct condition
+// would skip them; every map form and a selected struct column must keep them).
+func ZeroValueAtoms() []Atom {
+	return []Atom{
+		{ID: 1, Col: "age", Op: "eq", I: 0},
+		{ID: 2, Col: "name", Op: "eq", IsStr: true, S: ""},
+		{ID: 3, Col: "nick", Op: "eq", IsStr: true, S: ""},
+		{ID: 4, Col: "nick", Op: "isnull"},
+		{ID: 5, Col: "mark", Op: "eq", I: 0},
+	}
+}
+
+// ZeroValueUnits: every Go value that carries a condition on zero values only: typed maps
+// (map[string]interface{}, map[string]string, map[interface{}]interface{}) with one and with two
+// entries, column + value, values behind a driver.Valuer, and a struct whose zero columns are
+// selected by name. atoms = ZeroValueAtoms().
+func ZeroValueUnits() []Unit {
+	m := func(via string, ms ...int) Unit { return Unit{Form: "map", Via: via, Members: ms} }
+	return []Unit{
+		m("", 1), m("", 2), m("", 3), m("", 4), m("", 1, 2), m("", 1, 4),
+		m("mapss", 2), m("mapss", 3), m("mapss", 2, 3),
+		m("mapii", 1), m("mapii", 2), m("mapii", 4),
+		m("colarg", 1), m("colarg", 2), m("colarg", 4),
+		m("valuer", 1), m("valuer", 2),
+		{Form: "struct", Via: "sel", Members: []int{1}}, {Form: "struct", Via: "sel", Members: []int{2}},
+		{Form: "struct", Via: "sel", Members: []int{1, 2}}, {Form: "struct", Via: "slicesel", Members: []int{2}},
+	}
+}
+
+// ---- the Go values of map / struct / key units as C02_Args reads them ----
+
+func (a Atom) arity() int {
+	switch a.Op {
+	case "in":
+		if a.IsStr {
+			n := len(a.SL)
+			if a.Null {
+				n++
+			}
+			return n
+		}
+		return len(a.IL)
+	case "inempty":
+		return 0
+	}
+	return 1
+}
+
+func gField(zero, selected bool) string {
+	return lib.App("mk_gf", lib.Bool(zero), lib.Bool(selected), "true")
+}
+
+// structFields: the fields of the struct condition StructCond builds for the members, in schema
+// order (id, age, name, nick, mark and, for the soft-delete model, deleted_at); selected: the
+// members' columns are selected by name
+func structFields(members []int, byID map[int]Atom, selected bool) string {
+	zero := map[string]bool{"id": true, "age": true, "name": true, "nick": true, "mark": true}
+	sel := map[string]bool{}
+	for _, id := range members {
+		a := byID[id]
+		switch a.Col {
+		case "age":
+			zero["age"] = a.I == 0
+		case "name":
+			zero["name"] = a.S == ""
+		case "nick":
+			zero["nick"] = false // a non-nil pointer
+		}
+		sel[a.Col] = selected
+	}
+	fs := []string{}
+	for _, c := range []string{"id", "age", "name", "nick", "mark"} {
+		fs = append(fs, gField(zero[c], sel[c]))
+	}
+	if UseSoft {
+		fs = append(fs, gField(true, false))
+	}
+	return lib.List(fs)
+}
+
+// GArgs: the unit's Go values as a `list garg` and the arities of the conditions its members stand
+// for; ok = false for the forms BuildCondition's value loop does not see (string SQL, column +
+// value, expressions, groups).
+func (u Unit) GArgs(byID map[int]Atom) (args string, arities string, ok bool) {
+	ars := []string{}
+	for _, id := range u.Members {
+		ars = append(ars, lib.Nat(byID[id].arity()))
+	}
+	arities = lib.List(ars)
+	rep := func(s string, n int) []string {
+		out := []string{}
+		for i := 0; i < n; i++ {
+			out = append(out, s)
+		}
+		return out
+	}
+	switch u.Form {
+	case "map", "empty_map":
+		switch u.Via {
+		case "colarg":
+			return "", "", false
+		case "mapss":
+			bl := []string{}
+			for _, id := range u.Members {
+				bl = append(bl, lib.Bool(byID[id].S == ""))
+			}
+			return lib.List([]string{lib.App("AMapSS", lib.List(bl))}), arities, true
+		case "mapii":
+			return lib.List([]string{lib.App("AMapII", arities)}), arities, true
+		case "pk":
+			return "[ABare]", arities, true
+		case "pkstr", "pkstrsign":
+			return "[AStr]", arities, true
+		case "pkslice":
+			return lib.List([]string{lib.App("ABares", lib.Nat(len(byID[u.Members[0]].IL)))}), arities, true
+		case "pkargs":
+			return lib.List(rep("ABare", len(byID[u.Members[0]].IL))), arities, true
+		}
+		return lib.List([]string{lib.App("AMapSI", arities)}), arities, true
+	case "struct", "empty_struct":
+		switch u.Via {
+		case "slice":
+			rs := []string{}
+			for _, e := range u.Elems {
+				rs = append(rs, structFields(e, byID, false))
+			}
+			return lib.List([]string{lib.App("AStructs", lib.List(rs))}), arities, true
+		case "sel":
+			return lib.List(append([]string{lib.App("AStruct", structFields(u.Members, byID, true))}, rep("AStr", len(u.Members))...)), arities, true
+		case "slicesel":
+			return lib.List(append([]string{lib.App("AStructs", lib.List([]string{structFields(u.Members, byID, true)}))}, rep("AStr", len(u.Members))...)), arities, true
+		}
+		return lib.List([]string{lib.App("AStruct", structFields(u.Members, byID, false))}), arities, true
+	}
+	return "", "", false
+}
+
+// GArgsOfCalls: (args, arities) of every map / struct / key unit of the chain, nested groups included.
+func GArgsOfCalls(cs []Call, byID map[int]Atom) string {
+	items := []string{}
+	var walk func(cs []Call)
+	walk = func(cs []Call) {
+		for _, c := range cs {
+			if a, ar, ok := c.Unit.GArgs(byID); ok {
+				items = append(items, lib.Pair(a, ar))
+			}
+			walk(c.Unit.Calls)
+		}
+	}
+	walk(cs)
+	return lib.List(items)
 }
